@@ -62,8 +62,7 @@ def to_tree(nodes, nid=0, memo=None):
 def hook_site(step):
     hk = step.get("hk", {})
     sites = []
-    if "3" in hk:
-        sites.append("untranslated_other_origin")
+    # event 3 (untranslated symbol with another origin) is evidence only since D10 was repaired
     if "4" in hk:
         sites.append("reuse_of_split_node")
     return sites
